@@ -265,6 +265,10 @@ def defMsg (dev : Str) (g : Group) (v : Vec) : Except Exc Msg :=
 /-- reading values while building a message makes Read-handler refreshes stick -/
 def refreshVec (v : Vec) : Vec := { v with elems := v.elems.map fun e => if e.enabled then afterRead e else e }
 
+/-- building a *definition*: a BLOB definition carries no payload, `BLOB.to_def_message` does not read the value, so no Read
+event is raised and nothing is refreshed; every other kind reads its elements -/
+def refreshDef (v : Vec) : Vec := if v.kind = .blob then v else refreshVec v
+
 /-! ### addressing -/
 
 structure Addr where
@@ -516,7 +520,7 @@ def sendDefs : Device → List (Nat × Nat) → Result
       match defMsg d.name g v with
       | .error x => { dev := d, exc := some x }
       | .ok m =>
-        let v' := if vecEnabled g v then refreshVec v else v
+        let v' := if vecEnabled g v then refreshDef v else v
         let d' := setVec d gi vi v'
         mergeRes { dev := d', msgs := [m] } (sendDefs d' rest)
 
@@ -568,10 +572,10 @@ def announce (d : Device) (gi vi : Nat) : Result :=
     match defMsg d.name g v with
     | .error x => { dev := d, exc := some x }
     | .ok dm =>
-      let v1 := if vecEnabled g v then refreshVec v else v
+      let v1 := if vecEnabled g v then refreshDef v else v
       match setMsg d.name g v1 with
       | .error x => { dev := setVec d gi vi v1, msgs := [dm], exc := some x }
-      | .ok sm => { dev := setVec d gi vi v1, msgs := dm :: sm.toList }
+      | .ok sm => { dev := setVec d gi vi (if vecEnabled g v1 then refreshVec v1 else v1), msgs := dm :: sm.toList }
 
 /-- `vector.enabled = b` -/
 def enableVec (d : Device) (gi vi : Nat) (b : Bool) : Result :=
